@@ -40,6 +40,8 @@ def w_hier(case):
     post = chi.HierarchicalLogPosterior(hl, hier.build_prior(nt))
     objs.append(('posterior', post))
     for name, o in objs:
+        lists_are_copies(viol, 'hierarchical ' + name, o.get_parameter_names,
+                         o.get_id, lambda: o.get_parameter_names(include_ids=True))
         n = o.n_parameters()
         names = list(o.get_parameter_names())
         named = list(o.get_parameter_names(include_ids=True))
@@ -127,10 +129,35 @@ POP_OPS = ['n1', 'n2', 'n3', 'dims', 'dims0', 'pnames0', 'wrap', 'wrapfix',
            'fixlast', 'release', 'sel', 'seldup']
 
 
+def lists_are_copies(viol, label, *getters):
+    """Name / ID lists handed out are the caller's: extending one must not show in
+    the next one."""
+    for g in getters:
+        try:
+            first = g()
+            if not isinstance(first, list):
+                continue
+            before = list(first)
+            first.append('appended by the caller')
+            if len(first) > 1:
+                first[0] = 'overwritten by the caller'
+            if list(g()) != before:
+                viol.append({'sub': 'list_alias', 'message': 'a name / ID list '
+                             'handed out by %s is the object\'s own list: changes '
+                             'made by the caller show up in later answers' % label,
+                             'expected': before, 'observed': list(g()),
+                             'behaviour': 'list_alias'})
+                return
+        except TypeError:
+            continue
+
+
 def check_pop(m, viol, lab):
     """Invariants of a population model in its current configuration."""
     n_ids = m.n_ids() if not isinstance(m, chi.ReducedPopulationModel) \
         else m.get_population_model().n_ids()
+    lists_are_copies(viol, 'population model ' + lab, m.get_parameter_names,
+                     m.get_dim_names, m.get_covariate_names)
     n = m.n_parameters()
     names = m.get_parameter_names()
     facts = {'n_parameters': n, 'n_names': len(names),
@@ -378,6 +405,7 @@ def w_objects(case):
         n = ll.n_parameters()
         x = np.array(vals.reals('c17.ll', n, 0.5, 1.5, 0))
         s, g = ll.evaluateS1(x)
+        lists_are_copies(viol, 'LogLikelihood', ll.get_parameter_names)
         agree('LogLikelihood', n, ll.get_parameter_names(),
               bool(np.isfinite(ll(x))), len(g))
         post = chi.LogPosterior(ll, pints.ComposedLogPrior(*[
@@ -394,6 +422,8 @@ def w_objects(case):
         n = pm.n_parameters()
         x = vals.reals('c17.pm', n, 0.5, 1.5, 0)
         smp = pm.sample(x, [0.5, 1.0], n_samples=2, seed=1, return_df=False)
+        lists_are_copies(viol, 'PredictiveModel', pm.get_parameter_names,
+                         pm.get_output_names)
         agree('PredictiveModel', n, pm.get_parameter_names(),
               list(smp.shape) == [pm.get_n_outputs(), 2, 2])
         if len(pm.get_output_names()) != pm.get_n_outputs():
@@ -522,10 +552,12 @@ def w_objects(case):
             names = c.get_parameter_names()
             c.fix_parameters({names[i]: v for i, v in op})
         n = c.get_n_parameters()
+        lists_are_copies(viol, 'controller', c.get_parameter_names)
         agree('controller', n, c.get_parameter_names())
         c.set_log_prior(pints.ComposedLogPrior(*[
             pints.GaussianLogPrior(1, 2) for _ in range(n)]))
         post = c.get_log_posterior()
+        lists_are_copies(viol, 'controller posterior', post.get_parameter_names)
         N = post.n_parameters()
         names = list(post.get_parameter_names())
         x = np.array(vals.reals('c17.ctrl', N, 0.6, 1.4, 0))
@@ -593,6 +625,7 @@ def w_objects(case):
                 if isinstance(m, chi.ReducedMechanisticModel):
                     m.fix_parameters({n_: None for n_ in
                                       m.mechanistic_model().parameters()})
+        lists_are_copies(viol, 'mechanistic model', m.parameters, m.outputs)
         n = m.n_parameters()
         x = vals.reals('c17.mech', n, 0.4, 1.2, 0)
         res = m.simulate(x, [0.4, 1.3])
